@@ -109,7 +109,7 @@ class DCMotor:
     def ramp(self, target_speed: float, duration_ms: float) -> None:
         """Linearly ramp from the current speed to ``target_speed``."""
 
-        if duration_ms < 0:
+        if not 0 <= duration_ms < float("inf"):
             raise ValueError("duration must be non-negative")
 
         target = self._clamp_speed(target_speed)
@@ -128,7 +128,7 @@ class DCMotor:
     def run_for(self, duration_ms: float, speed: float) -> None:
         """Drive the motor at ``speed`` for ``duration_ms`` milliseconds."""
 
-        if duration_ms < 0:
+        if not 0 <= duration_ms < float("inf"):
             raise ValueError("duration must be non-negative")
 
         self.set_speed(speed)
